@@ -148,6 +148,43 @@ def correspondences(tier, rng):
             c2.append((key, ((bcd, icd), lcd), p, i, s))
     def impl_f2(x): return built[x[0]]
     out.append(Corr("compile_format2", c2, impl_f2, enc=lambda x: x[1:]))
+    # --- ligature rules -> LigatureSubst (longest first, file order among equal lengths), through the builder feaLib uses and through
+    #     a whole feature file
+    GL = lambda i: "g%d" % i
+    def gen_rules():
+        m = {}
+        for _ in range(rng.randint(1, 9)):
+            k = rng.choice([2, 2, 3, 3, 4, 1])
+            comps = tuple(rng.randint(0, 5) for _ in range(k))
+            if rng.chance(40) and m:                          # prefixes / extensions of an earlier rule
+                base = rng.choice(list(m)); comps = (base[:rng.randint(1, len(base))] + tuple(rng.randint(0, 5) for _ in range(rng.randint(0, 2))))[:4]
+            m[comps] = rng.randint(6, 11)
+        return list(m.items())
+    c4 = [gen_rules() for _ in range(N(tier, 600, 8000))]
+    def groups(st):
+        return sorted((int(f[1:]), [([int(c[1:]) for c in L.Component], int(L.LigGlyph[1:])) for L in ligs]) for f, ligs in st.ligatures.items())
+    def impl_build_lig(x):
+        def go():
+            st = B.buildLigatureSubstSubtable({tuple(GL(c) for c in comps): GL(lg) for comps, lg in x})
+            return groups(st)
+        return res(go)
+    def oracle_build_lig(x):
+        """the same rules written as a feature file and compiled by feaLib give the same subtable"""
+        from fontTools.feaLib.builder import addOpenTypeFeaturesFromString
+        from fontTools.ttLib import TTFont
+        rules = [(comps, lg) for comps, lg in x if len(comps) >= 2]
+        if not rules: return None
+        f = TTFont(); f.setGlyphOrder([".notdef"] + [GL(i) for i in range(12)])
+        fea = "feature liga {\n" + "".join("  sub %s by %s;\n" % (" ".join(GL(c) for c in comps), GL(lg)) for comps, lg in rules) + "} liga;\n"
+        try:
+            addOpenTypeFeaturesFromString(f, fea)
+            st = f["GSUB"].table.LookupList.Lookup[0].SubTable[0]
+        except Exception as e:
+            return "feaLib raised %r on %r" % (e, fea)
+        want = groups(B.buildLigatureSubstSubtable({tuple(GL(c) for c in comps): GL(lg) for comps, lg in rules}))
+        return None if groups(st) == want else "feature file %r compiles to %r, the builder gives %r" % (fea, groups(st), want)
+    out.append(Corr("build_lig", c4, impl_build_lig, enc=lambda x: ([(list(c), lg) for c, lg in x],), oracle=oracle_build_lig,
+                    compare=lambda x, i_, m_: list(i_[1:]) == list(m_) if i_ and i_[0] == 0 else False))
     return out
 
 # ------------------------------------------------------------------ textual fixed point and identical compilation
